@@ -302,6 +302,60 @@ Theorem C09_routes_extremes : forall vs,
 Proof. exact routes_extremes. Qed.
 Print Assumptions C09_routes_extremes.
 
+(* ---------------- round 6: layouts — extra dimensions named like a sub-field or an alias ---------------- *)
+(* the name lookup (Model/SubFieldRec.v `resolve`): whatever fields the array of the record has - also a field of that very
+   name - a name of a sub-field of the format, and every old laspy alias of it, addresses the bits of the packed byte *)
+Theorem C09_lookup_sub_field_first : forall fmt fields name c m,
+  find_sf fmt (canon name) = Some (c, m) -> resolve fmt fields name = TSub c m.
+Proof. exact resolve_sub_field_first. Qed.
+Print Assumptions C09_lookup_sub_field_first.
+
+Theorem C09_lookup_every_layout : forall fmt fields name,
+  In fmt known_fmts -> In name (fmt_names fmt) ->
+  exists c m, find_sf fmt name = Some (c, m)
+              /\ resolve fmt fields name = TSub c m
+              /\ (forall alias, In (alias, name) old_names -> resolve fmt fields alias = TSub c m).
+Proof. exact resolve_every_layout. Qed.
+Print Assumptions C09_lookup_every_layout.
+
+(* a field of the array is reached only by a name that is not a sub-field of the format *)
+Theorem C09_lookup_field : forall fmt fields name n, resolve fmt fields name = TField n ->
+  find_sf fmt (canon name) = None /\ n = canon name /\ In n fields.
+Proof. exact resolve_field. Qed.
+Print Assumptions C09_lookup_field.
+
+(* reading and assigning by a sub-field name on a record with other fields: the packed columns behave exactly as on the
+   layout without them (C09_seq_* therefore speak about every layout); the other fields keep every stored value and only
+   follow the growth of the record by zero points; out-of-range values are refused, nothing is produced *)
+Theorem C09_layout_read : forall fmt x name c m,
+  find_sf fmt (canon name) = Some (c, m) -> xread fmt x name = rec_read fmt (fst x) (canon name).
+Proof. exact xread_sub_field. Qed.
+Print Assumptions C09_layout_read.
+
+Theorem C09_layout_assign : forall fmt x name c m vs,
+  find_sf fmt (canon name) = Some (c, m) ->
+  xassign_sub fmt x name vs
+  = Some (match rec_assign_seq fmt (fst x) (canon name) vs with
+          | Ok r' => Ok (r', rec_grow (snd x) (rec_len r'))
+          | Err e => Err e
+          end).
+Proof. exact xassign_sub_field. Qed.
+Print Assumptions C09_layout_assign.
+
+Theorem C09_layout_fields_kept : forall fmt x name vs x',
+  xassign_sub fmt x name vs = Some (Ok x') ->
+  rec_assign_seq fmt (fst x) (canon name) vs = Ok (fst x')
+  /\ map fst (snd x') = map fst (snd x)
+  /\ (forall f, In f (map fst (snd x)) -> col_get (snd x') f = grow (col_get (snd x) f) (rec_len (fst x'))).
+Proof. exact xassign_fields_kept. Qed.
+Print Assumptions C09_layout_fields_kept.
+
+Theorem C09_layout_overflow : forall fmt x name c m vs,
+  find_sf fmt (canon name) = Some (c, m) -> (exists v, In v vs /\ (v > sf_max m \/ v < 0)) ->
+  xassign_sub fmt x name vs = Some (Err EOverflow).
+Proof. exact xassign_refused. Qed.
+Print Assumptions C09_layout_overflow.
+
 Example C09_nonvacuous :
   In (6, "scanner_channel"%string, "classification_flags"%string, 48) all_sub_fields
   /\ sf_assign 48 0xCF 2 = Ok 0xEF /\ sf_assign 48 0xCF 4 = Err EOverflow /\ sf_assign 48 0xCF (-1) = Err EOverflow
@@ -334,5 +388,17 @@ Example C09_nonvacuous :
   /\ sf_route 128 [0x80; 0x7F] RBool = Some [1; 0] /\ map as_bool [0x80; 0x7F] = [1; 1]
   /\ sf_route 255 [200] (RInt 8 true) = Some [-56] /\ sf_route 255 [200] (RInt 16 true) = Some [200]
   /\ sf_route 7 [0x0D; 0x39; 0x0D] RUnique = Some [1; 5] /\ sf_route 7 [0x0D; 0x39] (RCmp 4 5) = Some [1; 0]
-  /\ sf_route 7 [0x0D; 0x39] RSum = Some [6] /\ sf_route 7 [0x08; 0x39] RCount = Some [1] /\ sf_route 7 [0x0D; 0x39] (RItem 1) = Some [1].
+  /\ sf_route 7 [0x0D; 0x39] RSum = Some [6] /\ sf_route 7 [0x08; 0x39] RCount = Some [1] /\ sf_route 7 [0x0D; 0x39] (RItem 1) = Some [1]
+  (* a layout of format 1 with extra dimensions named "synthetic" and "return_num": the names (and the alias) address the
+     packed bits; the assignment leaves the extra bytes as they are (grown by a zero); "quality" is a plain field *)
+  /\ (let x : xrec := ([("bit_fields"%string, [0xFF; 0x00]); ("raw_classification"%string, [0x00; 0xFF])],
+                       [("synthetic"%string, [1000; 1001]); ("return_num"%string, [7; 7]); ("quality"%string, [3; 4])]) in
+      resolve 1 (xfields x) "synthetic" = TSub "raw_classification" 32
+      /\ resolve 1 (xfields x) "return_num" = TSub "bit_fields" 7
+      /\ resolve 1 (xfields x) "quality" = TField "quality" /\ resolve 1 (xfields x) "overlap" = TNone
+      /\ xread 1 x "synthetic" = Some [0; 1] /\ xread 1 x "quality" = Some [3; 4]
+      /\ xassign_sub 1 x "synthetic" [1; 0; 1]
+         = Some (Ok ([("bit_fields"%string, [0xFF; 0x00; 0x00]); ("raw_classification"%string, [0x20; 0xDF; 0x20])],
+                     [("synthetic"%string, [1000; 1001; 0]); ("return_num"%string, [7; 7; 0]); ("quality"%string, [3; 4; 0])]))
+      /\ xassign_sub 1 x "synthetic" [2; 0] = Some (Err EOverflow) /\ xassign_sub 1 x "quality" [1; 1] = None).
 Proof. split; [apply entry_mem; vm_compute; reflexivity|]. vm_compute. repeat split; reflexivity. Qed.
